@@ -77,7 +77,9 @@ def damaged_stream(c, i, m):
     if i[0] == 'ok' and m[0] == 'ok' and len(i[1]) == len(m[1]):
         for k, (a, b) in enumerate(zip(i[1], m[1])):
             if a != b:
-                if a[0] == 'err' and b[0] == 'err' and a[1][0] in DAMAGED[:3] and b[1][0] in DAMAGED[:3]:
+                def dmg(x):
+                    return x[0] == 'err' and (x[1][0] in DAMAGED[:3] or x[1][:2] == ['Internal', 'UnicodeError'])   # garbled text is not UTF-8 either
+                if dmg(a) and dmg(b):
                     x = [['err', ['DamagedManifest']]]
                     return ['ok', i[1][:k] + x + i[1][k + 1:]], ['ok', m[1][:k] + x + m[1][k + 1:]]
                 break
